@@ -4,6 +4,7 @@ use kurbo::*;
 use std::io::{self, BufRead, Write};
 
 mod ops;
+mod shapes;
 
 pub struct Rd<'a> {
     pub t: Vec<&'a str>,
@@ -202,7 +203,11 @@ fn run_line(line: &str) -> String {
     }
     let op = toks[0];
     let mut rd = Rd { t: toks[1..].to_vec(), i: 0 };
-    match ops::run(op, &mut rd) {
+    let r = match ops::run(op, &mut rd) {
+        None => shapes::run(op, &mut rd),
+        x => x,
+    };
+    match r {
         None => "UNKNOWN-OP".to_string(),
         Some(Err(BadArgs)) => "BAD-ARGS".to_string(),
         Some(Ok(s)) => {
